@@ -77,6 +77,8 @@ pub struct Agg {
     pub hashes: BTreeMap<String, u64>,
     /// traces of base histories whose crash points are to be enumerated
     pub enum_bases: Vec<(Job, Value)>,
+    /// runs of the same history in different hash universes: seed -> (universe, per-operation digests)
+    pub universe_groups: BTreeMap<u64, Vec<(u64, Vec<u64>, Job)>>,
 }
 
 impl Agg {
@@ -96,6 +98,11 @@ impl Agg {
         }
         for s in &r.states {
             self.states.insert(*s);
+        }
+        if let Some(u) = job.params.get("universe").and_then(|v| v.as_u64()) {
+            if r.violations.is_empty() && matches!(r.verdict, Verdict::Ok) {
+                self.universe_groups.entry(r.seed).or_default().push((u, r.states.clone(), job.clone()));
+            }
         }
         self.sim_nanos += r.sim_nanos as i128;
         self.steps += r.steps;
@@ -142,6 +149,27 @@ fn make_jobs(o: &Opts, pool: &Pool) -> Vec<Job> {
             let mut params = b.params.clone();
             params["batch"] = json!(b.label);
             let want_trace = params.get("enumerate_crash_points").and_then(|v| v.as_bool()).unwrap_or(false);
+            // the same history in several hash universes ("which process")
+            let universes = params.get("universes").and_then(|v| v.as_u64()).unwrap_or(0);
+            for u in 1..universes {
+                let mut p = params.clone();
+                p["universe"] = json!(u);
+                jobs.push(Job {
+                    engine: b.engine.to_string(),
+                    prop: o.prop.clone(),
+                    tier: o.tier.clone(),
+                    idx,
+                    seed: run_seed(bseed, i),
+                    params: p,
+                    replay_file: None,
+                    want_trace: false,
+                    scratch: pool.scratch.clone(),
+                });
+                idx += 1;
+            }
+            if universes > 0 {
+                params["universe"] = json!(0);
+            }
             jobs.push(Job {
                 engine: b.engine.to_string(),
                 prop: o.prop.clone(),
@@ -316,6 +344,38 @@ pub fn run_check(o: &Opts) -> i32 {
         let _ = std::fs::remove_dir_all(&dir);
     }
     let sim_wall = t0.elapsed().as_secs_f64();
+
+    // ---- cross-process clause: the same history must give the same results in every hash universe
+    let groups = std::mem::take(&mut agg.universe_groups);
+    let mut compared = 0u64;
+    for (seed, runs) in &groups {
+        if runs.len() < 2 {
+            continue;
+        }
+        compared += 1;
+        let (u0, d0, j0) = &runs[0];
+        for (u, d, _) in &runs[1..] {
+            if d != d0 {
+                let at = d.iter().zip(d0.iter()).position(|(a, b)| a != b).unwrap_or(d.len().min(d0.len()));
+                let v = Violation {
+                    property: o.prop.clone(),
+                    oracle: format!("{}.same_in_every_process", o.prop),
+                    class: "differs_between_processes".into(),
+                    detail: format!("history seed {seed}: the results of operation {at} differ between hash universe {u0} and hash universe {u} (same texts, dictionaries, configuration)"),
+                    facts: json!({"universes": [u0, u]}),
+                };
+                let mut r = RunResult::new(j0);
+                r.violations.push(v.clone());
+                r.trace = Some(json!({"engine": j0.engine, "seed": seed, "params": j0.params, "note": "re-run this seed with params.universe set to the two universes named in the violation"}));
+                agg.violating_runs += 1;
+                agg.violations.entry(format!("{}|{}", v.property, v.class)).or_insert((j0.clone(), r, v));
+                break;
+            }
+        }
+    }
+    if compared > 0 {
+        agg.counters.insert("histories_compared_across_universes".into(), compared);
+    }
 
     // ---- violations: minimise, replay-check, report
     let known = if std::env::var("HSIM_IGNORE_KNOWN").is_ok() { vec![] } else { load_known() };
